@@ -406,9 +406,9 @@ def classify(c):
 def obligations(tier):
     q = tier == "quick"
     obs = [
-        Obligation("percentile-gates", make_percentile_body(2, [0, 1], [0, 1, 2], [25.0, 50.0], ("COMPLETE", "RUNNING") if q else ("COMPLETE", "PRUNED", "RUNNING", "FAIL"),
+        Obligation("percentile-gates", make_percentile_body(2, [0, 1, 2], [0, 1, 2], [25.0, 50.0], ("COMPLETE", "RUNNING") if q else ("COMPLETE", "PRUNED", "RUNNING", "FAIL"),
                                                             ("finite",), intervals=(1, 2) if q else (1, 2, 3)), setup, CODE,
-                   bounds=dict(others=2, other_steps=[0, 1], cur_steps="subsets of {0,1,2}", n_startup="0..4", n_warmup="0..6",
+                   bounds=dict(others=2, other_steps=[0, 1, 2], cur_steps="subsets of {0,1,2}", n_startup="0..4", n_warmup="0..6",
                                n_min_trials="1..3", percentile=[25, 50], values="finite z3 reals"),
                    shard_depth=5, budget_s=600, classify=classify, require_reach=["prune-called", "prune-possible"],
                    describe="start-up / warm-up gates of Percentile/Median; params z3 ints, values z3 reals, trial states forked"),
